@@ -48,9 +48,14 @@ def run(ctx):
     if rm["rc"] != 0 or len(mixed) < 200:
         raise Undecided("TLC enumerated only %d texts with mixed line ends" % len(mixed))
     texts += mixed
+    rc = core.tlc(ctx, "gen-comments", "Snippet", None, cfgtext=cfg("SpecComments", ["Emit"], 0), workers=1, timeout=600)
+    comments = core.behaviours_from_print(rc["out"])
+    if rc["rc"] != 0 or len(comments) < 30:
+        raise Undecided("TLC enumerated only %d texts with comment lines" % len(comments))
+    texts += comments
     groups = [dict(kw=k, texts=texts) for k in KWLISTS]
     # the same property with the keyword list given as the raw option value (a smaller text set: all texts of length <= 3 + mixed line ends)
-    short = [t for t in texts if len(t) <= 3] + mixed
+    short = [t for t in texts if len(t) <= 3] + mixed + comments
     groups += [dict(kw=[], opt=o, texts=short) for o in KWOPTS]
     inp = ctx.path("s", "in.json")
     out = ctx.path("s", "trace.ndjson")
